@@ -661,4 +661,129 @@ theorem portion_statement (i : Nat) (cachedIds : List Bytes) (hsub : ∀ t ∈ c
       exact filterMap_rowOut _ _ hrows
 end
 
+theorem assemble_nil (S : List SpanRow) (n : Nat) : assemble [] S (some n) = [] := by
+  rw [assemble_eq]
+  have : keptSpans [] S = [] := by simp [keptSpans, tidsOf]
+  simp [this, dedup, sortBy]
+
+section
+variable (o : Oracles) (ao : AggOracles) (hp : PermInv ao) (c : Ctx) (d : TraceDb) (hash : Bytes → Nat) (idText : Bytes → String)
+  (hinj : ∀ a b, idText a = idText b → a = b) (N : Nat) (hN : 0 < N)
+  (hcons : DurConsistent (d.withPortionCols hash idText N)) (hts : TsConsistent (d.withPortionCols hash idText N))
+  (hcover : SpansCover (d.withPortionCols hash idText N))
+  (script : Script) (hok : ∀ p ∈ script, SelOk p.1) (hlim : 0 < c.limit) (htab : TablesDistinct c)
+include hp hinj hN hcons hts hcover hok hlim htab
+
+/-- the invariant of the loop: after the portions below `j`, the result is `assemble` of a choice of the `limit` most
+    recent described traces of those portions -/
+theorem loop_inv (k : Nat) (hk : k ≤ N) (K : List (Bytes × List Bytes))
+    (hInv : IsTopN (traceRec o ao c (d.withPortionCols hash idText N) script)
+      (fun t => traceMatches o ao c (d.withPortionCols hash idText N) script t = true ∧ hash t % N < N - k) c.limit.toNat (K.map (·.1)))
+    (hsp : ∀ x ∈ K, SpanSetOk (traceSpans o ao c (d.withPortionCols hash idText N) script x.1)
+      (scriptL (fun s tr => selMatches o ao c (d.withPortionCols hash idText N) s tr)
+        (fun s tr => [selSpans o c (d.withPortionCols hash idText N) s tr]) script x.1) x.2)
+    (out : List TraceOut)
+    (h : portionLoop (stmtRows o ao (d.withPortionCols hash idText N) script) idText c N k
+      (((assemble K (d.withPortionCols hash idText N).spansT (some c.limit.toNat)).map (·.traceId)).map idText)
+      (assemble K (d.withPortionCols hash idText N).spansT (some c.limit.toNat)) = .ok out) :
+    ∃ K' : List (Bytes × List Bytes),
+      IsTopN (traceRec o ao c (d.withPortionCols hash idText N) script)
+        (fun t => traceMatches o ao c (d.withPortionCols hash idText N) script t = true) c.limit.toNat (K'.map (·.1)) ∧
+      (∀ x ∈ K', SpanSetOk (traceSpans o ao c (d.withPortionCols hash idText N) script x.1)
+        (scriptL (fun s tr => selMatches o ao c (d.withPortionCols hash idText N) s tr)
+          (fun s tr => [selSpans o c (d.withPortionCols hash idText N) s tr]) script x.1) x.2) ∧
+      out = assemble K' (d.withPortionCols hash idText N).spansT (some c.limit.toNat) := by
+  induction k generalizing K with
+  | zero =>
+    simp only [portionLoop, pure, Except.pure, Except.ok.injEq] at h
+    refine ⟨K, ?_, hsp, h.symm⟩
+    refine hInv.congrOn ?_ (fun _ _ => rfl)
+    intro t
+    constructor
+    · exact fun h => h.1
+    · intro ht
+      exact ⟨ht, by simpa using Nat.mod_lt _ hN⟩
+  | succ k ih =>
+    simp only [portionLoop, bind, Except.bind] at h
+    generalize hdv : d.withPortionCols hash idText N = dv at *
+    -- the traces cached for this iteration are the traces of `K`
+    have hcov : ∀ x ∈ K, ∃ v ∈ x.2, ∃ s ∈ dv.spansT, s.traceId = x.1 ∧ s.spanId = v := by
+      intro x hx
+      have hs := hsp x hx
+      obtain ⟨v, hv⟩ := List.exists_mem_of_ne_nil _ hs.nonempty
+      obtain ⟨a, ha, hat, hav⟩ := traceSpans_index o ao c dv script x.1 v (hs.sound v hv)
+      obtain ⟨s, hs', hst, hss⟩ := hcover a ha
+      exact ⟨v, hv, s, hs', by rw [hst, hat], by rw [hss, hav]⟩
+    have hids : ∀ t, ((assemble K dv.spansT (some c.limit.toNat)).map (·.traceId)).contains t = true ↔ t ∈ K.map (·.1) := by
+      intro t
+      rw [List.contains_iff_mem]
+      exact assemble_traces K dv.spansT c.limit.toNat hInv.nodup (by simpa using hInv.atMost) hcov t
+    have hsub : ∀ t ∈ (assemble K dv.spansT (some c.limit.toNat)).map (·.traceId), d.traceIds.contains t = true := by
+      intro t ht
+      have hK := (hids t).mp (List.contains_iff_mem.mpr ht)
+      have hm := (hInv.sound t hK).1
+      have := traceMatches_traceId o ao c dv script t hm
+      rw [← hdv, withPortionCols_traceIds] at this
+      exact List.contains_iff_mem.mpr ((mem_dedup _ _).mpr this)
+    cases hrun : stmtRows o ao dv script (portionCtx c N (N - (k + 1)) (((assemble K dv.spansT (some c.limit.toNat)).map (·.traceId)).map idText)) with
+    | error e => rw [hrun] at h; cases h
+    | ok res' =>
+      simp only [hrun] at h
+      obtain ⟨K', hK', hsp', hres'⟩ := portion_statement o ao hp c d hash idText hinj N hN (hdv ▸ hcons) (hdv ▸ hts) script hok hlim htab
+        (N - (k + 1)) ((assemble K dv.spansT (some c.limit.toNat)).map (·.traceId)) hsub res' (by rw [hdv]; exact hrun)
+      rw [hdv] at hK' hsp' hres'
+      -- the candidates of this round: the described traces of portion `N - (k+1)` and the traces kept so far
+      have hcand : IsTopN (traceRec o ao c dv script)
+          (fun t => (traceMatches o ao c dv script t = true ∧ hash t % N = N - (k + 1)) ∨ t ∈ K.map (·.1)) c.limit.toNat (K'.map (·.1)) := by
+        refine hK'.congrOn ?_ (fun _ _ => rfl)
+        intro t
+        simp only [Bool.or_eq_true, beq_iff_eq, hids]
+        constructor
+        · rintro ⟨hm, hh | hk⟩
+          · exact Or.inl ⟨hm, hh⟩
+          · exact Or.inr hk
+        · rintro (⟨hm, hh⟩ | hk)
+          · exact ⟨hm, Or.inl hh⟩
+          · exact ⟨(hInv.sound t hk).1, Or.inr hk⟩
+      have hmerge := topN_merge _ _ _ _ _ _ hInv hcand
+      have hInv' : IsTopN (traceRec o ao c dv script)
+          (fun t => traceMatches o ao c dv script t = true ∧ hash t % N < N - k) c.limit.toNat (K'.map (·.1)) := by
+        refine hmerge.congrOn ?_ (fun _ _ => rfl)
+        intro t
+        constructor
+        · rintro (⟨hm, hlt⟩ | ⟨hm, heq⟩)
+          · exact ⟨hm, by omega⟩
+          · exact ⟨hm, by omega⟩
+        · rintro ⟨hm, hlt⟩
+          by_cases hh : hash t % N < N - (k + 1)
+          · exact Or.inl ⟨hm, hh⟩
+          · exact Or.inr ⟨hm, by omega⟩
+      have hmap : res'.map (fun t => idText t.traceId) = (res'.map (·.traceId)).map idText := by
+        rw [List.map_map]; rfl
+      rw [hmap, hres'] at h
+      exact ih (by omega) K' hInv' hsp' h
+
+/-- **portions_partition**: the loop of `ComplexRequestProcessor` over `N ≥ 1` portions (any hash function) returns
+    `assemble` of a choice of the `limit` most recent traces the script describes in the WHOLE index, each with an
+    admissible array of the spans the script selects of it — the specification the single statement meets (`plan_rows`) -/
+theorem portions_partition (out : List TraceOut)
+    (h : portionLoop (stmtRows o ao (d.withPortionCols hash idText N) script) idText c N N [] [] = .ok out) :
+    ∃ K : List (Bytes × List Bytes),
+      IsTopN (traceRec o ao c (d.withPortionCols hash idText N) script)
+        (fun t => traceMatches o ao c (d.withPortionCols hash idText N) script t = true) c.limit.toNat (K.map (·.1)) ∧
+      (∀ x ∈ K, SpanSetOk (traceSpans o ao c (d.withPortionCols hash idText N) script x.1)
+        (scriptL (fun s tr => selMatches o ao c (d.withPortionCols hash idText N) s tr)
+          (fun s tr => [selSpans o c (d.withPortionCols hash idText N) s tr]) script x.1) x.2) ∧
+      out = assemble K (d.withPortionCols hash idText N).spansT (some c.limit.toNat) := by
+  have h0 : IsTopN (traceRec o ao c (d.withPortionCols hash idText N) script)
+      (fun t => traceMatches o ao c (d.withPortionCols hash idText N) script t = true ∧ hash t % N < N - N) c.limit.toNat
+      (([] : List (Bytes × List Bytes)).map (·.1)) := by
+    refine ⟨by simp, by simp, by simp, ?_, by simp⟩
+    intro m hm _
+    simp at hm
+  apply loop_inv o ao hp c d hash idText hinj N hN hcons hts hcover script hok hlim htab N (Nat.le_refl N) [] h0 (by simp) out
+  rw [assemble_nil]
+  exact h
+end
+
 end Qryn.TraceQL
